@@ -254,6 +254,30 @@ pub fn run(ctx: &mut Ctx) {
         (matches!(parse_dtls_record_header(&b), Ok((rem, g)) if rem.is_empty() && g.content_type.0 == v && g.sequence_number == h.seq), b)
     });
 
+
+    // content type of raw / encrypted records against a matrix of versions and lengths (field coincidences)
+    ctx.floor("swept.content_type.matrix", 256 * 8 * 10 * 2);
+    ctx.sweep("content_type.matrix", 256, |ctx, idx| {
+        let t = idx as u8;
+        let mut rng = Rng::new(idx ^ 0x3A7);
+        let buf = rng.bytes(16640 + 8);
+        for v in [0x0301u16, 0x0303, 0x0300, 0x0002, 0x8001, 0x2e01, 0xfeff, rng.u16()] {
+            for l in [0usize, 1, 3, 255, 768, 770, 772, 1024, 16384, 16640] {
+                let mut b = vec![t];
+                b.extend_from_slice(&v.to_be_bytes());
+                b.extend_from_slice(&(l as u16).to_be_bytes());
+                b.extend_from_slice(&buf[..l + 2]);
+                let g1 = matches!(parse_tls_raw_record(&b), Ok((rem, r)) if rem.len() == 2 && r.hdr.record_type.0 == t && r.hdr.version.0 == v && r.data.len() == l);
+                let g2 = matches!(parse_tls_encrypted(&b), Ok((rem, r)) if rem.len() == 2 && r.hdr.record_type.0 == t && r.hdr.version.0 == v && r.msg.blob.len() == l);
+                probe(ctx, "content_type.matrix.raw", t as u32, g1, &b[..b.len().min(40)]);
+                probe(ctx, "content_type.matrix.encrypted", t as u32, g2, &b[..b.len().min(40)]);
+                ctx.add("swept.content_type.matrix", 2);
+            }
+        }
+        ctx.evals(160);
+        ctx.shape(&("ct-matrix", idx / 8));
+    });
+
     // ------------------------------------------------ 256 x 256 pairs
     ctx.floor("swept.alert.level_x_description", 65536 * 2);
     ctx.sweep("alert.level_x_description", 256, |ctx, idx| {
